@@ -165,6 +165,7 @@ def run(ctx):
         st = impl.state(rows, r)
         pure = impl.state(G.rand_tableau(rng, n, 0)[0], 0)
         mp, mp2 = impl.cmap(G.rand_map_ops(rng, n)), impl.cmap(G.rand_map_ops(rng, n))
+        idm = pc.identity_map(n)
         lst = impl.plist([G.rand_herm(rng, n) for _ in range(3)], n)
         pol = impl.poly([(G.rand_op(rng, n), 1.0 + 0j), (G.rand_op(rng, n), 0.5j)])
         pa = impl.pauli(G.rand_herm(rng, n, nonid=True))
@@ -182,6 +183,9 @@ def run(ctx):
             ('StabilizerState.__repr__', st, (), lambda: repr(st)),
             ('StabilizerState.stabilizers', st, (), lambda: st.stabilizers),
             ('CliffordMap.compose', mp, (mp2,), lambda: mp.compose(mp2)),
+            ('CliffordMap.compose(identity)', mp, (idm,), lambda: mp.compose(idm)),
+            ('identity.compose(CliffordMap)', idm, (mp,), lambda: idm.compose(mp)),
+            ('PauliList.transform_by(identity)-result', lst, (idm,), lambda: lst.copy().transform_by(idm)),
             ('CliffordMap.inverse', mp, (), lambda: mp.inverse()),
             ('CliffordMap.to_state', mp, (), lambda: mp.to_state()),
             ('CliffordMap.__repr__', mp, (), lambda: repr(mp)),
@@ -206,7 +210,7 @@ def run(ctx):
         if [value(a) for a in args] != va:
             ctx.fail(name, 'query modified an argument', dict(before=str(va)[:800]))
         # results that are fresh objects must not alias receiver/arguments (mutate result, re-observe)
-        if name in ('CliffordMap.compose', 'CliffordMap.inverse', 'CliffordMap.to_state', 'StabilizerState.to_map', 'StabilizerState.sample',
+        if name in ('CliffordMap.compose', 'CliffordMap.compose(identity)', 'identity.compose(CliffordMap)', 'PauliList.transform_by(identity)-result', 'CliffordMap.inverse', 'CliffordMap.to_state', 'StabilizerState.to_map', 'StabilizerState.sample',
                     'StabilizerState.density_matrix', 'stabilizer_state(PauliList)', 'PauliPolynomial.__matmul__', 'PauliPolynomial.__add__',
                     'diagonalize(StabilizerState)', 'diagonalize(Pauli)'):
             for a in arrays(res):
@@ -214,6 +218,34 @@ def run(ctx):
                     a.flat[0] = a.flat[0] + 1
             if value(recv) != vr or [value(a) for a in args] != va:
                 ctx.fail(name, 'result aliases the receiver or an argument (mutating the result changed them)', dict(method=name))
+    # ---- circuits: compose / copy, then extend one party and re-observe the other
+    for _ in range(ctx.budget(60, 600)):
+        n = rng.choice([2, 3, 4])
+        mkc = lambda L: (lambda c: [c.take(CU.impl_gate(impl, d)) for d in CU.rand_program(rng, n, L, kinds=('gen', 'fmap', 'named', 'cnot'))] and c or c)(CI.CliffordCircuit(n))
+        recv = mkc(rng.choice([0, 0, 1, 3]))
+        arg = mkc(rng.randrange(1, 5))
+        va = value(arg)
+        probe = [G.rand_op(rng, n) for _ in range(4)]
+        act = lambda c: impl.ops_of(c.forward(impl.plist(probe)))
+        act_b = lambda c: impl.ops_of(c.backward(impl.plist(probe)))
+        wa, wb = act(arg), act_b(arg)
+        try:
+            recv.compose(arg)
+            ctx.count('circuit-compose')
+            if act(arg) != wa or act_b(arg) != wb:
+                ctx.fail('CliffordCircuit.compose', 'compose changed the action of its argument', dict(N=n))
+            for d in CU.rand_program(rng, n, rng.randrange(1, 4), kinds=('gen', 'named', 'cnot')):
+                recv.take(CU.impl_gate(impl, d))        # extend the receiver afterwards
+            if act(arg) != wa or act_b(arg) != wb:   # observed through the action: lazily cached inverse maps inside shared gate objects are not a change
+                ctx.fail('CliffordCircuit.compose', 'extending the receiver after compose changed the argument circuit (shared layers)', dict(N=n))
+            wr, wrb = act(recv), act_b(recv)
+            for d in CU.rand_program(rng, n, rng.randrange(1, 4), kinds=('gen', 'named', 'cnot')):
+                arg.take(CU.impl_gate(impl, d))         # extend the argument afterwards
+            if act(recv) != wr or act_b(recv) != wrb:
+                ctx.fail('CliffordCircuit.compose', 'extending the argument after compose changed the receiver circuit (shared layers)', dict(N=n))
+        except Exception as e:
+            ctx.fail('CliffordCircuit.compose', 'implementation raised %r' % e, dict(N=n))
+        ctx.case(('circuit-compose', n, _), True, sample=dict(op='compose then extend', N=n))
     # ---- in-place operations change the receiver, never the arguments
     for _ in range(ctx.budget(150, 1500)):
         n = rng.choice([1, 2, 3, 4])
